@@ -35,9 +35,9 @@ Print Assumptions letters_read_back.
 Example parse_render_nonvacuous :
   let rs := [([99;104;114;49;32;100], [65;67;71;84;78;82;89;65;67;71]); ([83;35;49;35;120], [116;103;99;97;120])] in
   forallb good_rec rs = true /\
-  render 3 eol_crlf mask_mixed rs <> render 100000 eol_lf mask_upper rs /\
+  render 3 eol_crlf mask_mixed rs <> render 2000 eol_lf mask_upper rs /\
   parse (render 3 eol_crlf mask_mixed rs) = Ok [([99;104;114;49;32;100], [0;1;2;3;4;5;6;0;1;2]); ([83;35;49;35;120], [3;2;1;0;30])] /\
-  parse (render 1 eol_lf mask_lower rs) = parse (render 100000 eol_lf mask_upper rs) /\
+  parse (render 1 eol_lf mask_lower rs) = parse (render 2000 eol_lf mask_upper rs) /\
   render 3 eol_crlf mask_mixed [([97], [65;67;71;84;65])] = [62;97;13;10; 65;99;103;13;10; 84;97;13;10].
 Proof. vm_compute. repeat split; try reflexivity. discriminate. Qed.
 
